@@ -209,7 +209,7 @@ func ruleC15Exhaustive(c *Ctx) {
 
 var resp2Kinds = map[string]bool{"respSimpleString": true, "respErrorString": true, "respInt": true, "respBulkString": true, "respArray": true}
 
-const textClosure = "R-C15-closure: the down-converter and its helpers only ever produce RESP2 kinds (simple string, error, integer, bulk string, array, nil), pass a value through unchanged only on the cases of those kinds, and recurse into the children of arrays, maps, sets and attribute maps"
+const textClosure = "R-C15-closure: the down-converter and its helpers only ever produce RESP2 kinds (simple string, error, integer, bulk string, array, nil), pass a value through unchanged only on the cases of those kinds, recurse into the children of arrays, maps, sets and attribute maps, turn a boolean into the integer 0/1 and a verbatim string into a bulk string of its text (sent as a simple string it would lose its line breaks)"
 
 func ruleC15Closure(c *Ctx) {
 	c.S.Rule("R-C15-closure", textClosure, 3)
@@ -290,6 +290,66 @@ func ruleC15Closure(c *Ctx) {
 		} else {
 			sort.Strings(bad)
 			c.S.Bad("R-C15-closure", key, c.Pos(fn.Pos()), fmt.Sprintf("%s can put %s into a reply for a RESP2 connection", fnName(fn), strings.Join(bad, ", ")))
+		}
+		// (d) the kind each scalar RESP3 type is turned into: booleans become the integers 0/1, and text that may
+		// contain line breaks (a verbatim string: INFO, CLIENT LIST) becomes a bulk string of the text alone — the
+		// simple-string emitter strips CR/LF (R-C01-line), so a verbatim string sent as a simple string loses its lines
+		if fn == conv {
+			want := map[string]string{"respBool": "respInt", "respVerbatimString": "respBulkString"}
+			isTest := func(b *ssa.BasicBlock) (*ssa.TypeAssert, bool) {
+				ifi, ok := b.Instrs[len(b.Instrs)-1].(*ssa.If)
+				if !ok {
+					return nil, false
+				}
+				ex, ok := ifi.Cond.(*ssa.Extract)
+				if !ok || ex.Index != 1 { // the ok of `v, ok := x.(T)`, not the boolean value of a case for a bool type
+					return nil, false
+				}
+				ta, ok := ex.Tuple.(*ssa.TypeAssert)
+				return ta, ok
+			}
+			for _, b := range fn.Blocks {
+				ta, ok := isTest(b)
+				if !ok {
+					continue
+				}
+				caseT := typeString(ta.AssertedType)
+				wantK, has := want[caseT]
+				if !has {
+					continue
+				}
+				body := reachableFrom(b.Succs[0], func(a, bb *ssa.BasicBlock) bool { _, t := isTest(a); return t })
+				var got []string
+				for bb := range body {
+					for _, in := range bb.Instrs {
+						st, ok := in.(*ssa.Store)
+						if !ok {
+							continue
+						}
+						if fa, ok := st.Addr.(*ssa.FieldAddr); !ok || fieldOf(fa) != fData {
+							continue
+						}
+						if mi, ok := st.Val.(*ssa.MakeInterface); ok {
+							got = append(got, typeString(mi.X.Type()))
+						} else {
+							got = append(got, "the value itself")
+						}
+					}
+				}
+				key := fnName(fn) + ":kind-of-" + caseT
+				okAll := len(got) > 0
+				for _, g := range got {
+					if g != wantK {
+						okAll = false
+					}
+				}
+				sort.Strings(got)
+				if okAll {
+					c.S.OK("R-C15-closure", key, c.Pos(ta.Pos()), fmt.Sprintf("%s becomes %s", caseT, wantK))
+				} else {
+					c.S.Bad("R-C15-closure", key, c.Pos(ta.Pos()), fmt.Sprintf("%s turns %s into %s where the RESP2 form is %s: a boolean is 0/1, and a verbatim string is a bulk string of its text (as a simple string it gets a format prefix and loses its line breaks — INFO on a RESP2 connection is one line)", fnName(fn), caseT, strings.Join(got, "/"), wantK))
+				}
+			}
 		}
 		// (b) helpers over collections recurse
 		if fn == conv {
